@@ -30,14 +30,16 @@ CONSTANTS
   EmitRate,     \* 0: emit nothing; r > 0: emit about one in r distinct states as a replay case
   AV            \* value sets for InitAll (the all-states configurations): a record, see InitAll
 
-VARIABLES now, api, run, pend, asg, pc, ctl, accepted, alive
+VARIABLES now, api, run, pend, asg, pc, ctl, accepted, alive,
+          snap   \* the informer cache: [on |-> FALSE] = in sync with the API; [on |-> TRUE, api |-> a] = frozen at an earlier content a
 
-vars == <<now, api, run, pend, asg, pc, ctl, accepted, alive>>
+vars == <<now, api, run, pend, asg, pc, ctl, accepted, alive, snap>>
 
 NoTaint == [has |-> FALSE, ok |-> FALSE, at |-> 0]
 FreshNode(t) == [created |-> t, cordoned |-> FALSE, force |-> FALSE, nodel |-> FALSE, taint |-> NoTaint, pid |-> "ok", cpu |-> KC, mem |-> KM]
 
 Present == DOMAIN api
+NoSnap == [on |-> FALSE, api |-> [n \in {} |-> FreshNode(0)]]
 \* group pods as Core sees them: unit pods (1, 1); running ones are scheduled on their node
 PodsSeq ==
   LET runSeq(n) == [i \in 1..run[n] |-> [cpu |-> 1, mem |-> 1, node |-> n, pending |-> FALSE, sched |-> TRUE]]
@@ -45,7 +47,7 @@ PodsSeq ==
       Cat(S) == IF S = {} THEN <<>> ELSE LET x == CHOOSE x \in S : TRUE IN runSeq(x) \o Cat(S \ {x})
   IN Cat({n \in NodeIds : run[n] > 0}) \o [i \in 1..pend |-> [cpu |-> 1, mem |-> 1, node |-> "", pending |-> TRUE, sched |-> FALSE]]
 
-GroupRec == [cfg |-> CfgC, order |-> SetToSortedSeq(Present), lag |-> FALSE, api |-> api, view |-> api, pods |-> PodsSeq,
+GroupRec == [cfg |-> CfgC, order |-> SetToSortedSeq(Present), lag |-> snap.on, api |-> api, view |-> IF snap.on THEN snap.api ELSE api, pods |-> PodsSeq,
              asg |-> asg, pc |-> pc, ctl |-> ctl, accepted |-> accepted, tries |-> 0, seenCpu |-> ctl.capCpu, seenMem |-> ctl.capMem]
 World == [now |-> now, dryAll |-> DryAll, alive |-> alive, gorder |-> <<G>>, groups |-> [g \in {G} |-> GroupRec]]
 
@@ -58,11 +60,12 @@ Init ==
   /\ api = [n \in first |-> FreshNode(0)]
   /\ run = [n \in NodeIds |-> 0]
   /\ pend = 0
-  /\ asg = [min |-> AsgMin0, max |-> AsgMax0, desired |-> InitNodes, members |-> first]
+  /\ asg = [min |-> AsgMin0, max |-> AsgMax0, desired |-> InitNodes, members |-> first, terminating |-> {}, linger |-> "Linger" \in EnvOn]
   /\ pc = asg
   /\ ctl = Ctl0
   /\ accepted = Never
   /\ alive = TRUE
+  /\ snap = NoSnap
 
 \* "For every cluster state": every well-typed state over the value sets of AV is an initial state (now = 10); used with
 \* NEXT Stutter and the invariant InvNoViolation, so that no reachability argument is involved at all.
@@ -81,7 +84,7 @@ InitAll ==
        /\ api \in [P -> NodeShapes]
        /\ run \in {r \in [NodeIds -> AV.run] : \A n \in NodeIds \ P : r[n] = 0}
        /\ \E M \in (IF TRUE \in AV.lost THEN SUBSET P ELSE {P}), e \in AV.extra :
-            asg = [min |-> AsgMin0, max |-> AsgMax0, desired |-> Cardinality(M) + e, members |-> M]
+            asg = [min |-> AsgMin0, max |-> AsgMax0, desired |-> Cardinality(M) + e, members |-> M, terminating |-> {}, linger |-> "Linger" \in EnvOn]
   /\ pend \in AV.pend
   /\ pc = asg
   /\ \E la \in AV.lock, d \in AV.delta :
@@ -90,39 +93,43 @@ InitAll ==
                              !.minEff = IF CfgC.auto THEN AsgMin0 ELSE CfgC.min, !.maxEff = IF CfgC.auto THEN AsgMax0 ELSE CfgC.max]
        /\ accepted = IF la < 0 THEN Never ELSE 10 - la
   /\ alive = TRUE
+  /\ snap = NoSnap
 Stutter == UNCHANGED vars
 
 -----------------------------------------------------------------------------
 (* Environment *)
 On(a) == a \in EnvOn
 
-Tick == On("Tick") /\ now' = now + 1 /\ UNCHANGED <<api, run, pend, asg, pc, ctl, accepted, alive>>
+Tick == On("Tick") /\ now' = now + 1 /\ UNCHANGED <<api, run, pend, asg, pc, ctl, accepted, alive, snap>>
 
-PodArrive == On("PodArrive") /\ pend < MaxPend /\ pend' = pend + 1 /\ UNCHANGED <<now, api, run, asg, pc, ctl, accepted, alive>>
+PodArrive == On("PodArrive") /\ pend < MaxPend /\ pend' = pend + 1 /\ UNCHANGED <<now, api, run, asg, pc, ctl, accepted, alive, snap>>
 
 \* (the escalator taint may be PreferNoSchedule, so a pod can still land on a tainted node)
 Schedulable(n) == n \in Present /\ ~api[n].cordoned /\ ~api[n].force /\ (~api[n].taint.has \/ "PodOnTainted" \in EnvOn) /\ run[n] < Min2(KC, KM)
 PodSchedule == On("PodSchedule") /\ pend > 0 /\ \E n \in NodeIds : Schedulable(n) /\ run' = [run EXCEPT ![n] = @ + 1] /\ pend' = pend - 1
-                 /\ UNCHANGED <<now, api, asg, pc, ctl, accepted, alive>>
+                 /\ UNCHANGED <<now, api, asg, pc, ctl, accepted, alive, snap>>
 
 PodFinish == /\ On("PodFinish")
              /\ \/ \E n \in NodeIds : run[n] > 0 /\ run' = [run EXCEPT ![n] = @ - 1] /\ UNCHANGED pend
                 \/ pend > 0 /\ pend' = pend - 1 /\ UNCHANGED run
-             /\ UNCHANGED <<now, api, asg, pc, ctl, accepted, alive>>
+             /\ UNCHANGED <<now, api, asg, pc, ctl, accepted, alive, snap>>
 
 \* the cloud starts an instance while the group is below its desired capacity
-CloudLaunch == On("CloudLaunch") /\ Cardinality(asg.members) < asg.desired
+InstanceGone == On("Linger") /\ \E n \in asg.terminating : asg' = [asg EXCEPT !.members = @ \ {n}, !.terminating = @ \ {n}]
+                  /\ UNCHANGED <<now, api, run, pend, pc, ctl, accepted, alive, snap>>
+
+CloudLaunch == On("CloudLaunch") /\ Cardinality(asg.members \ asg.terminating) < asg.desired
                  /\ \E n \in NodeIds : n \notin asg.members /\ n \notin Present /\ run[n] = 0
                       /\ n = (CHOOSE m \in NodeIds : m \notin asg.members /\ m \notin Present /\ run[m] = 0)   \* symmetric: pick one
                       /\ asg' = [asg EXCEPT !.members = @ \cup {n}]
-                 /\ UNCHANGED <<now, api, run, pend, pc, ctl, accepted, alive>>
+                 /\ UNCHANGED <<now, api, run, pend, pc, ctl, accepted, alive, snap>>
 
 Register == On("Register") /\ \E n \in asg.members : n \notin Present
                  /\ api' = [m \in Present \cup {n} |-> IF m = n THEN FreshNode(now) ELSE api[m]]
-                 /\ UNCHANGED <<now, run, pend, asg, pc, ctl, accepted, alive>>
+                 /\ UNCHANGED <<now, run, pend, asg, pc, ctl, accepted, alive, snap>>
 
 SetNode(n, f(_)) == api' = [api EXCEPT ![n] = f(@)]
-EnvNode(name, P(_), f(_)) == On(name) /\ \E n \in Present : P(api[n]) /\ SetNode(n, f) /\ UNCHANGED <<now, run, pend, asg, pc, ctl, accepted, alive>>
+EnvNode(name, P(_), f(_)) == On(name) /\ \E n \in Present : P(api[n]) /\ SetNode(n, f) /\ UNCHANGED <<now, run, pend, asg, pc, ctl, accepted, alive, snap>>
 
 Cordon      == EnvNode("Cordon", LAMBDA o : ~o.cordoned, LAMBDA o : [o EXCEPT !.cordoned = TRUE])
 Uncordon    == EnvNode("Uncordon", LAMBDA o : o.cordoned, LAMBDA o : [o EXCEPT !.cordoned = FALSE])
@@ -136,26 +143,31 @@ TaintOf(k) == CASE k = "now" -> [has |-> TRUE, ok |-> TRUE, at |-> now]
                 [] k = "future" -> [has |-> TRUE, ok |-> TRUE, at |-> 1000000]
                 [] k = "zero" -> [has |-> TRUE, ok |-> TRUE, at |-> -1000000]
 ExtTaint    == On("ExtTaint") /\ \E n \in Present, k \in TaintKinds : ~api[n].taint.has /\ SetNode(n, LAMBDA o : [o EXCEPT !.taint = TaintOf(k)])
-                 /\ UNCHANGED <<now, run, pend, asg, pc, ctl, accepted, alive>>
+                 /\ UNCHANGED <<now, run, pend, asg, pc, ctl, accepted, alive, snap>>
 
 \* Kubernetes garbage-collects the Node of an instance that is gone (pods on it go with it)
 NodeGone == On("NodeGone") /\ \E n \in Present : n \notin asg.members
                  /\ api' = [m \in Present \ {n} |-> api[m]] /\ run' = [run EXCEPT ![n] = 0]
-                 /\ UNCHANGED <<now, pend, asg, pc, ctl, accepted, alive>>
+                 /\ UNCHANGED <<now, pend, asg, pc, ctl, accepted, alive, snap>>
 
 AsgEdit == On("AsgEdit") /\ \E b \in AsgBoundsSet : (b[1] # asg.min \/ b[2] # asg.max) /\ b[1] <= asg.desired /\ asg.desired <= b[2]
                  /\ asg' = [asg EXCEPT !.min = b[1], !.max = b[2]]
-                 /\ UNCHANGED <<now, api, run, pend, pc, ctl, accepted, alive>>
+                 /\ UNCHANGED <<now, api, run, pend, pc, ctl, accepted, alive, snap>>
 
 \* an operator raises the desired capacity by hand (more nodes than max_nodes may then register)
 DesiredBump == On("DesiredBump") /\ asg.desired < asg.max /\ asg' = [asg EXCEPT !.desired = @ + 1]
-                 /\ UNCHANGED <<now, api, run, pend, pc, ctl, accepted, alive>>
+                 /\ UNCHANGED <<now, api, run, pend, pc, ctl, accepted, alive, snap>>
+
+\* the informer cache stops receiving updates (watch stalled) and later resyncs: while it lags, the scan lists the frozen content
+\* but every write, and the re-read before a taint update, goes to the live API
+LagOn  == On("Lag") /\ ~snap.on /\ snap' = [on |-> TRUE, api |-> api] /\ UNCHANGED <<now, api, run, pend, asg, pc, ctl, accepted, alive>>
+LagOff == On("Lag") /\ snap.on /\ snap' = NoSnap /\ UNCHANGED <<now, api, run, pend, asg, pc, ctl, accepted, alive>>
 
 \* the controller process restarts: its memory is lost, the ghost is per lifetime
 Restart == On("Restart") /\ (ctl # [Ctl0 EXCEPT !.minEff = ctl.minEff, !.maxEff = ctl.maxEff] \/ ~alive \/ accepted # Never)
                  /\ ctl' = [Ctl0 EXCEPT !.minEff = IF CfgC.auto THEN pc.min ELSE CfgC.min, !.maxEff = IF CfgC.auto THEN pc.max ELSE CfgC.max]
                  /\ accepted' = Never /\ alive' = TRUE
-                 /\ UNCHANGED <<now, api, run, pend, asg, pc>>
+                 /\ UNCHANGED <<now, api, run, pend, asg, pc, snap>>
 
 -----------------------------------------------------------------------------
 (* The scan *)
@@ -204,10 +216,10 @@ RunOnceAct ==
           /\ api' = g2.api /\ asg' = g2.asg /\ pc' = g2.pc /\ accepted' = g2.accepted
           /\ ctl' = IF r.crash THEN ctl ELSE g2.ctl       \* a crashed process has no memory; Restart resets it
           /\ alive' = r.W.alive
-       /\ UNCHANGED <<now, pend, run>>      \* pods of a removed node stay until they finish or the Node is collected
+       /\ UNCHANGED <<now, pend, run, snap>>      \* pods of a removed node stay until they finish or the Node is collected
 
 Next == Tick \/ PodArrive \/ PodSchedule \/ PodFinish \/ CloudLaunch \/ Register \/ Cordon \/ Uncordon \/ ExtForce \/ ExtUnforce
-        \/ Annotate \/ Unannotate \/ ExtTaint \/ ExtUntaint \/ NodeGone \/ AsgEdit \/ DesiredBump \/ Restart \/ RunOnceAct
+        \/ Annotate \/ Unannotate \/ ExtTaint \/ ExtUntaint \/ NodeGone \/ AsgEdit \/ DesiredBump \/ InstanceGone \/ LagOn \/ LagOff \/ Restart \/ RunOnceAct
 
 Spec == Init /\ [][Next]_vars
 
@@ -237,10 +249,17 @@ Emit == \/ EmitRate = 0
 CapT == Max2(Max2(CfgC.hard, CfgC.cool), CfgC.maxAge) + 1
 Sat(x) == IF now - x > CapT THEN CapT ELSE IF now - x < -1 THEN -1 ELSE now - x
 Rank(n) == Cardinality({m \in Present : api[m].created < api[n].created})
+AbsSnap == IF ~snap.on THEN snap ELSE
+  [snap EXCEPT !.api = [n \in DOMAIN snap.api |->
+     [snap.api[n] EXCEPT !.created = <<Cardinality({m \in DOMAIN snap.api : snap.api[m].created < snap.api[n].created}), snap.api[n].created = now,
+                                        IF CfgC.maxAge > 0 THEN Sat(snap.api[n].created) ELSE 0,
+                                        IF snap.api[n].created > ctl.lastOut THEN 1 ELSE IF snap.api[n].created = ctl.lastOut THEN 0 ELSE -1,
+                                        n \in Present /\ api[n].created = snap.api[n].created>>,
+                          !.taint = IF @.has /\ @.ok THEN [@ EXCEPT !.at = Sat(@)] ELSE @]]]
 View == << [n \in Present |-> [api[n] EXCEPT !.created = <<Rank(n), api[n].created = now, IF CfgC.maxAge > 0 THEN Sat(api[n].created) ELSE 0,
                                                            IF api[n].created > ctl.lastOut THEN 1 ELSE IF api[n].created = ctl.lastOut THEN 0 ELSE -1>>,
                                              !.taint = IF @.has /\ @.ok THEN [@ EXCEPT !.at = Sat(@)] ELSE @]],
            run, pend, asg, pc,
            [ctl EXCEPT !.lockAt = Sat(@), !.lastOut = Sat(@)],
-           Sat(accepted), alive >>
+           Sat(accepted), alive, AbsSnap >>
 =============================================================================
